@@ -210,6 +210,30 @@ func cases(tier string, want func(docIdx int64) bool, f func(idx int64, doc, mod
 			emit(func() string { return enum.Spell(d, n, enum.Spelling{Unit: "  ", Bullets: []byte("-")}) })
 		}
 	}
+	// raw byte strings (binary, invalid UTF-8, CR, NUL, a byte order mark): every string of up to 4 bytes over an
+	// 11-byte alphabet, and the same bytes inserted at every position of two seed documents
+	rawAlpha := []byte{'-', ' ', '\t', '\n', 'a', '#', '*', '+', '\r', 0xff, 0}
+	for L := 1; L <= 4 && ok; L++ {
+		enum.Tuples(L, len(rawAlpha), func(t []int) {
+			emitN(6, func() string {
+				b := make([]byte, L)
+				for i, x := range t {
+					b[i] = rawAlpha[x]
+				}
+				return string(b)
+			})
+		})
+	}
+	for _, seed := range []string{"- a\n  - b\n    - c.go\n- d\n", "\xef\xbb\xbf# h\n- a\n\t- b\n"} {
+		for pos := 0; pos <= len(seed) && ok; pos++ {
+			for _, ch := range rawAlpha {
+				emitN(6, func() string { return seed[:pos] + string(ch) + seed[pos:] })
+				if pos < len(seed) {
+					emitN(6, func() string { return seed[:pos] + string(ch) + seed[pos+1:] })
+				}
+			}
+		}
+	}
 	// lines around the scanner's token limit (64 KiB) and far beyond it
 	for _, ln := range []int{4095, 4096, 65500, 65535, 65536, 65537, 100000, 262143, 262145, 300000} {
 		for _, pre := range []string{"- ", "  - ", "# "} {
